@@ -1,4 +1,5 @@
 """C07 - single-threaded event is correct under any re-entrant waker callback (events_once, local)."""
+import re
 from ..analysis import (path_count, Slice, switch_guards, UserCode, guard_src_place, calls_to, who_calls, WAKER_FNS)
 from ..evtflow import return_sites
 from ..mir import callee_key, callee_paths, op_local, op_place, resolve_const, strip_generics, op_access_path, place_fields
@@ -243,6 +244,8 @@ def run(ctx):
 
     endpoint_no_use_after_finish(ctx, prog, "R8.no-event-access-after-wake", EV)
     endpoint_receiver_drop(ctx, prog, "R6.release-and-waker-balance", EV, "local_receiver::LocalReceiverCore")
+    endpoint_receiver_poll(ctx, prog, "R6.release-and-waker-balance", "local_receiver::LocalReceiverCore")
+    protected_reference_rule(ctx, "R8.no-event-access-after-wake", "events_once::core::local::LocalEvent", "events_once::core::local::LocalEvent")
     endpoint_sender_drop(ctx, prog, "R9.transition-on-every-path", EV, "local_sender::LocalSenderCore")
 
     # ---------------- R3
@@ -479,6 +482,101 @@ def endpoint_receiver_drop(ctx, prog, rid, event_prefix, recv_suffix):
     ctx.ob(rid, f"{recv_suffix.split('::')[-1]}.drop.release-unless-ok-none", ok2, d.loc(rel[0][1]["span"]),
            f"after final_poll every path releases the event except the `Ok(None)` arm of its result: {ok2}" +
            ("" if ok2 else " - a terminal outcome (value waiting, or sender gone) that is not followed by release_event leaks the event; a decision taken from an earlier look at the event is stale once final_poll ran the waker's destructor"))
+
+
+def protected_reference_rule(ctx, rid, module, adt):
+    """A `&Event` function ARGUMENT is protected for the whole call (Stacked/Tree Borrows): the storage it points to must not be
+    freed while the function runs. A waker callback may poll the receiver to completion and release the event - so no
+    function that holds the event by `&Event` (rather than by `&UnsafeCell<Event>` / raw pointer, which carry no protector)
+    may invoke a waker, directly or through helpers. Evaluated on the UN-normalised program (helpers as written), over every
+    function of the module: no function name is involved."""
+    rp = ctx.raw_prog("events_once")
+    n = 0
+    wake_reach = {}
+
+    def reaches_wake(b, depth=4, seen=None):
+        if b.key in wake_reach:
+            return wake_reach[b.key]
+        seen = seen or set()
+        if b.key in seen or depth == 0:
+            return None
+        seen = seen | {b.key}
+        hit = None
+        for bb, t in b.calls():
+            if b.blocks[bb].cleanup:
+                continue
+            if callee_paths(t["callee"]) & WAKE_CALLS:
+                hit = b.loc(t["span"])
+                break
+            cb = rp.body_for_callee(t["callee"])
+            if cb is not None and cb.crate == b.crate and not cb.is_closure:
+                h = reaches_wake(cb, depth - 1, seen)
+                if h:
+                    hit = f"{cb.name} -> {h}"
+                    break
+        wake_reach[b.key] = hit
+        return hit
+
+    for b in rp.bodies:
+        if not b.key.startswith(module) or "::tests" in b.key or b.is_closure:
+            continue
+        prot = []
+        for i in range(1, b.arg_count + 1):
+            ty = b.local_ty(i)
+            s_ = ty["s"]
+            if ty["k"] in ("ref", "refmut") and re.match(r"^&(?:'\w+ )?(?:mut )?" + re.escape(adt) + r"\b", s_):
+                prot.append(i)
+        if not prot:
+            continue
+        n += 1
+        hit = reaches_wake(b)
+        ctx.ob(rid, f"{b.key.split('::')[-1]}:protected-ref-no-wake", hit is None, b.loc(),
+               f"holds the event by reference argument _{prot[0]} ({b.local_ty(prot[0])['s'][:60]}); reaches a waker invocation: {hit or 'no'}" +
+               ("" if hit is None else " - the callback may release the event while this function's protected reference is live"))
+    if n == 0:
+        ctx.missing(rid, f"functions of {module} taking {adt} by reference")
+
+
+WAKE_CALLS = {"std::task::Waker::wake", "std::task::Waker::wake_by_ref", "core::task::Waker::wake", "core::task::Waker::wake_by_ref",
+              "std::task::wake::Waker::wake", "std::task::wake::Waker::wake_by_ref", "core::task::wake::Waker::wake", "core::task::wake::Waker::wake_by_ref"}
+
+
+def endpoint_receiver_poll(ctx, prog, rid, recv_suffix):
+    """The receiver endpoint's Future::poll: whether THIS poll completed the event (so the storage must be released and the
+    receiver become inert) is decided by the value the inner `Event::poll` returned - not by a look at the event taken before
+    it (the waker's clone callback, run inside the inner poll, may complete the event) and not by one taken after it."""
+    ps = [b for b in prog.bodies if b.name == "poll" and b.impl_trait and b.impl_trait.endswith("future::Future") and b.impl_adt
+          and b.impl_adt.endswith(recv_suffix)]
+    if not ps:
+        ctx.missing(rid, f"Future::poll for {recv_suffix}")
+        return
+    b = ps[0]
+    ctx.fn(b)
+    name = recv_suffix.split("::")[-1]
+    ep = [(bb, t) for bb, t in b.calls() if t["callee"].get("method") == "poll" and "vent" in callee_key(t["callee"]) and not b.blocks[bb].cleanup]
+    rel = [(bb, t) for bb, t in b.calls() if t["callee"].get("method") == "release_event" and not b.blocks[bb].cleanup]
+    if len(ep) != 1 or len(rel) != 1:
+        ctx.ob(rid, f"{name}.poll.shape", False, b.loc(), f"inner poll sites {len(ep)}, release_event sites {len(rel)}")
+        return
+    ebb, et = ep[0]
+    rbb, rt = rel[0]
+    dom = b.dominators(unwind=False)
+    decided = False
+    foreign = []
+    for g in switch_guards(b, rbb, dom=dom):
+        if g["bb"] not in b.successors_reach(ebb, False) or ebb not in dom[g["bb"]]:
+            continue   # tests made before the inner poll (the Option of the reference)
+        sl = Slice(b).run(b.blocks[g["bb"]].term["discr"])
+        if any(ct is et for _k, _b, ct in sl["calls"]):
+            decided = True
+        else:
+            foreign.append(g["bb"])
+    # a guard computed BEFORE the inner poll but tested after it is stale too: every guard after the poll must derive from it
+    ok = ebb in dom[rbb] and decided and not foreign
+    # and the not-completed side does not release: the release is unreachable when the result is None
+    ctx.ob(rid, f"{name}.poll.release-decided-by-inner-result", ok, b.loc(rt["span"]),
+           f"release_event after the inner poll: {ebb in dom[rbb]}; guarded by the inner poll's own result: {decided}; other tests between them: {len(foreign)}" +
+           ("" if ok else " - completion judged from a separate look at the event misses a completion that happens inside the inner poll (waker clone callback): Ready is returned but the storage is neither released nor the receiver made inert"))
 
 
 def _is_variant0(d, u, lab):
